@@ -1127,7 +1127,8 @@ def print_progress_bar(
         length: Character length of bar
     """
     progress: str = ("{0:." + str(decimals) + "f}").format(total - iteration)
-    filled_length: int = int(length * iteration // total)
+    # (an interval may end at time 0: the bar is then simply full)
+    filled_length: int = int(length * iteration // total) if total else length
     filled_bar = '█' * filled_length + '-' * (length - filled_length)
     print(
         f'\rProgress:|{filled_bar}| {progress}/{float(total)} '
